@@ -81,13 +81,19 @@ class Monitor:
             setattr(cls, attr, ph[n])
         pending = dict(ph)
         problems: List[dict] = []
-        stats = {"events": 0, "reads_after_write": 0, "write_event": {}}
+        stats = {"events": 0, "reads_after_write": 0, "write_event": {}, "before_write": set()}
 
         def prof(frame, event, arg):
             if event != "call":
                 return
             stats["events"] += 1
             if pending:
+                # the package functions entered before the operation's write: cross-check of the STATIC call graph (extractor)
+                mod = frame.f_globals.get("__name__", "")
+                if mod == "primaite" or mod.startswith("primaite."):
+                    qn = frame.f_code.co_qualname.replace(".<locals>", "")
+                    if "<" not in qn:
+                        stats["before_write"].add(f"{mod[len('primaite.'):] if mod != 'primaite' else 'primaite'}:{qn}")
                 for n in list(pending):
                     cls, attr = self.owner[n]
                     if getattr(cls, attr) is not pending[n]:
@@ -132,7 +138,8 @@ def monitor_build(cfg: Dict, names: List[str], inv, roles) -> dict:
         env.close()
     except Exception:
         pass
-    return {"problems": r1["problems"] + r2["problems"], "events": r1["stats"]["events"] + r2["stats"]["events"],
+    return {"before_write": {"__init__": sorted(r1["stats"]["before_write"]), "reset": sorted(r2["stats"]["before_write"])},
+            "problems": r1["problems"] + r2["problems"], "events": r1["stats"]["events"] + r2["stats"]["events"],
             "reads_after_write": r1["stats"]["reads_after_write"] + r2["stats"]["reads_after_write"],
             "write_event": {"construct": r1["stats"]["write_event"], "reset": r2["stats"]["write_event"]},
             "readers_monitored": sorted(set(mon.reader_names.values())), "unresolved": mon.unresolved}
